@@ -77,6 +77,7 @@ type Contract struct {
 	Stale      []string // results / parameters whose pointee holds stale (history dependent) contents
 	Cleans     []string // parameters whose pointee is completely overwritten
 	NeedsClean []*DelegateSpec // Callee = parameter name: the pointee must not be stale at the call
+	MapInv     *Clause  // invariant over (key, val) of the maps this function touches: assumed on lookup/range, proved on update
 	UseLocals  bool     // assume the local (value-level) clauses of callees too
 	Trust      []string // obligation kinds assumed instead of proved in this function (reported)
 	Keeps      []*WriteSpec
@@ -381,6 +382,12 @@ func (sp *Specs) parseLine(cur **Contract, line, file string, ln int) error {
 		for _, f := range strings.Fields(rest) {
 			c.NeedsClean = append(c.NeedsClean, &DelegateSpec{Tags: tags, Callee: f})
 		}
+	case "mapinvariant":
+		cl, err := mk("mapinvariant", rest)
+		if err != nil {
+			return err
+		}
+		c.MapInv = cl
 	case "uselocals":
 		c.UseLocals = true
 	case "trust":
